@@ -451,3 +451,37 @@ Proof.
   intros reqauth ops sched Hc Hd. destruct (disjoint_fids_spec ops Hc) as [H1 H2].
   exists (lin_order reqauth ops sched). apply disjoint_linearization; assumption.
 Qed.
+
+(* ------------------------------------------------------------------ non-vacuity: a schedule in the class with real overlap *)
+
+Lemma all_done_b : forall s, forallb is_done (threads s) = true -> all_done s.
+Proof.
+  intros s H i th Hi. rewrite forallb_forall in H. apply H.
+  apply elem_of_list_In. eapply elem_of_list_lookup_2. exact Hi.
+Qed.
+
+(* attach(0) succeeds, attach(1) fails in the FileSys and rolls back, auth(5) binds an auth fid, stat(2) finds
+   nothing, walk 3->4 finds nothing: five operations on disjoint fids, interleaved action by action *)
+Definition ex_dis_ops : list (op * list outcome) :=
+  [(OpAttach 0 NOFID, [OOk 0 true]); (OpAttach 1 NOFID, [OErr]); (OpAuth 5, [OOk 0 true]);
+   (OpStat 2, []); (OpWalk 3 4 1 true, [])].
+Definition ex_dis_sched : list nat :=
+  concat (replicate 8 [0; 1; 2; 3; 4])%nat.
+
+Definition overlapb (h : list hop) (i j : nat) : bool :=
+  match h !! i, h !! j with
+  | Some a, Some b => (h_inv a <? h_ret b) && (h_inv b <? h_ret a)
+  | _, _ => false
+  end.
+
+Lemma ex_disjoint_in_class :
+  disjoint_fids (map fst ex_dis_ops) = true /\
+  all_done (run ex_dis_sched (init true ex_dis_ops)) /\
+  overlapb (history_of_run true ex_dis_ops ex_dis_sched) 0 1 = true /\
+  overlapb (history_of_run true ex_dis_ops ex_dis_sched) 1 2 = true /\
+  map (fun h => r_cls (h_res h)) (history_of_run true ex_dis_ops ex_dis_sched) = [R_OK; R_FSERR; R_OK; R_UNKNOWNFID; R_UNKNOWNFID] /\
+  lin_order true ex_dis_ops ex_dis_sched = [3; 4; 0; 1; 2]%nat.
+Proof.
+  split; [vm_compute; reflexivity|]. split; [apply all_done_b; vm_compute; reflexivity|].
+  split; [vm_compute; reflexivity|]. split; [vm_compute; reflexivity|]. split; vm_compute; reflexivity.
+Qed.
